@@ -46,8 +46,8 @@ fn strategy(t: Tier) -> BoxedStrategy<Case> {
 
 pub fn run(c: &Case) -> Verdict {
     let n = c.h.n;
-    let d = run_history(Fam::Dyn, &c.h, |_, _, _, _, _| Ok(()));
-    let s = run_history(Fam::Static, &c.h, |_, _, _, _, _| Ok(()));
+    let d = run_history(Fam::Dyn, &c.h, |_, _, _, _, _, _| Ok(()));
+    let s = run_history(Fam::Static, &c.h, |_, _, _, _, _, _| Ok(()));
     let (d, s) = match (d, s) {
         (Ok(d), Ok(s)) => (d, s),
         (Err(e1), Err(_)) => return pass(false, vec![format!("skipped:{}", e1.chars().take(20).collect::<String>())]),
